@@ -184,6 +184,27 @@ CLAIMS = {
                      "proper nesting of blocks and template holes, which the VM itself (two separate stacks) does not need.",
         "technique": "Lean 4 soundness theorem for a bytecode verifier (abstract interpretation, all paths) run on the compiler's real output + skeleton/VM cross-check streams",
     },
+    "C07": {
+        "text": "Theorems on the Lean VM model: the dispatch loop charges each dispatch before executing it and executes nothing once "
+                "the counter exceeds the limit (dispatch_guard, dispatch_charges_one), never runs an instruction on a full operand "
+                "stack (stack_guard); block/template nesting beyond 20, array concatenation beyond 512 and string concatenation "
+                "beyond 1 MiB are errors before the write; for WoD and Double Cross, for every word stream and ANY number of "
+                "rounds, a completed roll has charged exactly the dice it rolled (wod_charged_all, dc_charged_all, modulo 2^64 like "
+                "Go's counter), a roll under a budget that completes stayed within it and an aborted one has charged more than "
+                "the budget (wodLoop_budget, dcLoop_budget). Tie: vm stream compares NumOpCount (small budgets exercise the "
+                "over-budget path). Oracle on the implementation with a work-meter hook (instruction dispatches, dice rolled): "
+                "dispatches <= NumOpCount, dice <= NumOpCount - dispatches (+1 per instruction), both <= budget + slack, no value "
+                "when over budget, no timeout/death, over heavy programs (all dice families with huge counts, exploding pools, "
+                "recursion, computed values loaded through nested functions, doubling strings/arrays) x budgets x modes; capacity "
+                "families at and around every cap must give the full value or an error (an error beyond the documented caps); "
+                "parse budgets give errors. Four defects found this way were repaired.",
+        "note": TB + "Monotonicity of the counter across every instruction (hence 'at most budget+1 dispatches') is proved for the loop "
+                     "guard and the dice families but not yet for all 70 opcodes with sub-VM calls; it is validated by the meter "
+                     "oracle. Work per non-dice instruction is bounded by the capacities (512 elements, 1 MiB strings), not metered. "
+                     "Parsing time is superlinear in the source length and is bounded only when ParseExprLimit is set. Rendering "
+                     "shared structures (ToString of a DAG) is outside the evaluation.",
+        "technique": "Lean 4 theorems on the VM/dice model (loop guard, per-round charging by induction over rounds) + metered accounting oracle + differential NumOpCount stream",
+    },
 }
 
 NOT_YET = {}
